@@ -230,6 +230,14 @@ fn read_version(tx: &jammdb::Tx, p: &Params) -> Result<u32, String> {
         }
     }
     let v = version.ok_or("empty snapshot")?;
+    // point lookups go down the tree by a different route than the scan
+    for k in keyset(p, v).into_iter().step_by(3) {
+        match b.get(key_of(k)) {
+            Some(Data::KeyValue(kv)) if kv.value() == value_of(p, v, k).as_slice() => {}
+            Some(_) => return Err(format!("get(key {}) disagrees with the scan of version {}", k, v)),
+            None => return Err(format!("get(key {}) finds nothing although the scan of version {} lists it", k, v)),
+        }
+    }
     let mut want = keyset(p, v);
     want.sort();
     seen.sort();
@@ -314,6 +322,17 @@ fn scenario_c04(p: Params, path: String) {
             report("sh-panic", "join", "a thread panicked".into());
         }
     }
+    // a reader that begins after everything has completed sees the last commit
+    match db.tx(false) {
+        Ok(tx) => match read_version(&tx, &p) {
+            Ok(v) if v == p.commits => {}
+            Ok(v) => report("sh-snapshot", "stale", format!("after all {} commits returned a new reader sees version {}", p.commits, v)),
+            Err(e) => report("sh-snapshot", "mixed", format!("final reader: {}", e)),
+        },
+        Err(e) => report("sh-reader", "tx", format!("final reader: {}", e)),
+    }
+    drop(db);
+    structure_check(&path, "sh-snapshot");
 }
 
 // ---------------------------------------------------------------------------------------------
@@ -439,6 +458,32 @@ fn scenario_c09(p: Params, path: String) {
         Ok(g) if g == want => {}
         Ok(g) => report("sh-lost-update", "final", format!("{} read-modify-write transactions committed but the counter is {}", want, g)),
         Err(e) => report("sh-reader", "final", e),
+    }
+    // what the serialized writers left behind is one well-formed file
+    if let Err(e) = db.check() {
+        report("sh-lost-update", "structure", format!("after the concurrent transactions the database's own check reports: {}", e));
+    }
+    drop(db);
+    structure_check(&path, "sh-lost-update");
+}
+
+/// the independent file checker on the final file
+fn structure_check(path: &str, oracle: &str) {
+    if let Some((mut buf, len)) = simos::file_view(path) {
+        if let Some(h) = crate::fsck::choose_header(&buf, 1024) {
+            let need = h.num_pages.saturating_mul(1024).min(len) as usize;
+            if buf.len() < need {
+                buf.resize(need, 0);
+            }
+        }
+        match crate::fsck::check(&buf, len, 1024) {
+            Ok(rep) => {
+                if let Some(e) = rep.errors.first() {
+                    report(oracle, "structure", format!("after the concurrent transactions the file is not well-formed: {}", e));
+                }
+            }
+            Err(e) => report(oracle, "structure", format!("after the concurrent transactions the file does not parse: {}", e)),
+        }
     }
 }
 
